@@ -65,6 +65,8 @@ func vDrawStep(tag string, nOps int) vStepIn {
 	case 9:
 		sub := vDrawStep(tag+".discarded", 8)
 		in.inner = &sub
+	case 10:
+		in.frac = []sdk.Dec{sdk.NewDecWithPrec(1, 2), sdk.NewDecWithPrec(5, 1), sdk.OneDec()}[zz.Choice(tag+".severity", 3)]
 	}
 	return in
 }
@@ -139,6 +141,10 @@ func vApplyStep(e *VEnv, in vStepIn) {
 		}
 		e.Advance(time.Second, 1)
 		e.K.handleValidatorSignature(e.Ctx, e.Pubs[vi].Address(), in.power, in.signed)
+	case 10: // the application queues a custom burn for the validator (applied by the next BeginBlocker)
+		if _, ok := e.Val(vi); ok {
+			e.K.BurnValidator(e.Ctx, e.Addrs[vi], in.frac)
+		}
 	case 9: // a step executed on a cache-wrapped branch of the state that is then discarded (simulation, failed tx)
 		branch := *e
 		cctx, _ := e.Ctx.CacheContext()
@@ -160,6 +166,10 @@ func vHistoryEnv() *VEnv {
 // is below the minimum stake.
 func vHistory(p string, steps int, symbolic bool) {
 	vHistorySymbolic = symbolic
+	nOps := 11
+	if steps > 2 {
+		nOps = 8 // longer histories over the core alphabet (no discarded branches, votes, custom burns)
+	}
 	e := vHistoryEnv()
 	e.Fund(e.Addrs[2], vSym("bal2", 0, 1<<50, 7000000))
 	bal0 := vSym("bal0", 1000000, 1<<50, 9000000)
@@ -168,7 +178,7 @@ func vHistory(p string, steps int, symbolic bool) {
 	zz.Assume(stake0.LTE(bal0))
 	e.Stake(0, stake0)
 	for s := 0; s < steps; s++ {
-		vApplyStep(e, vDrawStep([]string{"s1", "s2", "s3"}[s], 10))
+		vApplyStep(e, vDrawStep([]string{"s1", "s2", "s3"}[s], nOps))
 		e.invariants(p + ".history")
 		min := sdk.NewInt(e.K.MinimumStake(e.Ctx))
 		ok := true
